@@ -15,8 +15,8 @@ package props
 
 import (
 	"context"
-	"encoding/json"
 	"encoding/hex"
+	"encoding/json"
 	"fmt"
 	"runtime/debug"
 	"strings"
